@@ -13,6 +13,7 @@ type specCtx struct {
 	env  map[string]*Term
 	old  *State
 	site token.Pos
+	noLocals bool // inside a macro body: only its parameters, package-level names and packages are in scope
 }
 
 func (c *FnCtx) specEval(st *State, e *SExpr, env map[string]*Term, old *State) *Term {
@@ -58,6 +59,9 @@ func (c *FnCtx) specErr(e *SExpr, format string, args ...interface{}) {
 }
 
 func (c *FnCtx) lookupLocal(sc *specCtx, name string) *Term {
+	if sc.noLocals {
+		return nil
+	}
 	var best types.Object
 	for obj := range sc.st.vars {
 		if obj.Name() != name {
@@ -753,7 +757,7 @@ func (c *FnCtx) applySpecFunc1(sc *specCtx, f *SpecFunc, args []*Term, e *SExpr)
 		}
 		env[p.Name] = a.withGo(t)
 	}
-	sc2 := &specCtx{st: sc.st, env: env, old: sc.old, site: token.NoPos}
+	sc2 := &specCtx{st: sc.st, env: env, old: sc.old, site: token.NoPos, noLocals: true}
 	c.specDepth++
 	var r *Term
 	func() {
